@@ -1,5 +1,6 @@
 import Bmc.Proto.Sensor
 import Bmc.Driver.Prim
+import Bmc.Lemmas.Binary64
 /-! `conv <record hex> <raw> <flags> [<completion code> <further response bytes hex>]` — the model's answer for the
     path record → `NewSensorReader` → `Read` (C15). Prints the reader kind, and the canonical exact decimal of the
     linear part or the error kind; never a float. -/
@@ -32,6 +33,25 @@ def showRead : ReadRes → String
       | some f => f.returnsNumber true (signOf (normalize d).1)
     s!"{showDecimal d} num={bool num}"
 
+/-- the binary64 value the five-rounding computation of `ConvertReading` returns (`FloatModel.convertFloat` under `rnd64`), as
+    the exact rational `num/den`; `!` appended should the exponent self-check of `rnd64` ever fail on a non-zero intermediate
+    (the value would then not be a binary64 number; never observed) -/
+def showLinearFloat (rd : Reader) (raw : UInt8) : String :=
+  let l := rd.lin
+  let x := l.parser.parse raw
+  let R := FloatModel.Rounding.binary64
+  let p1 := R.rnd ((10 : Rat) ^ l.bExp)
+  let t1 := (l.b : Rat) * p1
+  let b1 := R.rnd t1
+  let t2 := (l.m : Rat) * (x : Rat) + b1
+  let s := R.rnd t2
+  let p2 := R.rnd ((10 : Rat) ^ l.rExp)
+  let t3 := s * p2
+  let r := R.rnd t3
+  let ok (q : Rat) : Bool := q == 0 || FloatModel.exponentOk q
+  let allOk := ok ((10 : Rat) ^ l.bExp) && ok t1 && ok t2 && ok ((10 : Rat) ^ l.rExp) && ok t3
+  s!"{r.num}/{r.den}" ++ (if allOk then "" else "!")
+
 def showBuildErr : BuildErr → String
   | .nonLinear => "err-nonlinear"
   | .notAnalog => "err-notanalog"
@@ -43,7 +63,11 @@ def evalConv (args : List String) : String :=
     | some rec, some raw, some fl, some cc, some ex =>
       match conv (GoSlice.ofBytes rec) (UInt8.ofNat cc) (GoSlice.ofBytes (UInt8.ofNat raw :: UInt8.ofNat fl :: ex)) with
       | .ok (.error e) => s!"kind={showBuildErr e} val=-"
-      | .ok (.ok (rd, res)) => s!"kind={showKind rd} req={rd.lin.number.toNat}/{rd.lin.ownerLUN.toNat} val={showRead res}"
+      | .ok (.ok (rd, res)) =>
+        let lin := match res with
+          | .value _ _ => s!" lin={showLinearFloat rd (UInt8.ofNat raw)}"
+          | _ => ""
+        s!"kind={showKind rd} req={rd.lin.number.toNat}/{rd.lin.ownerLUN.toNat} val={showRead res}{lin}"
       | .err => "rec-err"
       | .panic => "panic"
       | .overread => "overread"
